@@ -1,15 +1,24 @@
 import Lean
 import H2V.Lemmas.ConnCtlPViewSend
 /-
-  ConnCtlP, view lemmas part 2 — `popFrame` and the rest of ConnSend.lean.
+  ConnCtlP, view lemmas part 2 — `popFrame`, `prioBufferPendingLoop`, `prioBufferPending`.
 
-  `popFrame`: its body is so large that the kernel cannot check the equation lemmas that `unfold` /
-  `rw [Streams.popFrame]` ask for ("deep recursion" after minutes), nor an `rfl` against a copy of the
-  body, nor a `dsimp`-reduction of the outer `match fuel + 1, s, maxLen with`.  So the structural
-  recursion is opened by hand: `popFrame n = Nat.brecOn n popFrame._f` (`delta`, cheap for the kernel),
-  the outer match of the functional `popFrame._f` is rewritten with the matcher's own equation lemma
-  (every argument explicit, so that no unification and no kernel reduction is involved), and the frame
-  lemma is proved on what is left — the loop body with `b.1` in place of the recursive call.
+  Why `popFrame` needs care.  The kernel's `whnf` does not terminate in practice on a term
+  `x + 18446744073709551616` with `x` symbolic (`Nat.add` is unfolded on the literal, then `reduce_nat`
+  on `Nat.succ _` recurses once per unit: "deep recursion" after minutes and 20 GB).  Such terms sit in
+  `wrapSubU32` / `wrapSubUsize`, i.e. behind `Stream.sendData`, `tryAssignCapacity`,
+  `reclaimAllCapacity`, ….  The kernel evaluates them whenever a defeq check between two
+  *non-identical* terms meets a `match` on such a call (matchers are unfolded eagerly and the
+  discriminant is put in whnf).  This kills `unfold Streams.popFrame` / `rw [Streams.popFrame]` (their
+  equation lemmas), an `rfl` against a copy of the body, and `dsimp only` on the body.  What works:
+   * `popFrame n = Nat.brecOn n popFrame._f` by `delta` (both sides identical after unfolding);
+   * the outer `match fuel + 1, s, maxLen with` of `popFrame._f` rewritten with the matcher's own
+     equation lemma, every argument explicit (`popframe_match_succ`): no unification, no reduction;
+   * the dangerous constants (`Stream.sendData`, `Streams.reclaimAllCapacity`) replaced by VARIABLES
+     before anything else is done.  A plain `generalize` is not enough — `instantiateMVars`
+     beta-reduces `(fun sd => proof) Stream.sendData` and the constant is back in the final term — so
+     the generalised statement is wrapped in `id` (`revert; refine @id _ ?_; intro`): the kernel then
+     checks `proof` under a λ-bound, opaque `sd`.
 -/
 set_option autoImplicit false
 set_option linter.unusedSimpArgs false
@@ -55,6 +64,13 @@ theorem view_popFrame_f (n : Nat)
     view (Streams.popFrame._f (Nat.succ n) b s maxLen).1 = view s := by
   unfold Streams.popFrame._f
   popframe_match_succ
+  -- make the two calls behind which `wrapSub*` sits opaque for the kernel (see the header)
+  have hrac := view_reclaimAllCapacity
+  (generalize @Streams.reclaimAllCapacity = rac at hrac ⊢)
+  (generalize @Stream.sendData = sd)
+  revert rac sd
+  refine @_root_.id _ ?_
+  intro rac hrac sd
   dsimp only
   view_auto
 
@@ -68,5 +84,16 @@ theorem view_popFrame_f (n : Nat)
     intro s m
     rw [popFrame_below]
     exact ih s m
+
+@[simp] theorem view_prioBufferPendingLoop (fuel : Nat) (s : Streams) (w : Writer) :
+    view (Streams.prioBufferPendingLoop fuel s w).1 = view s := by
+  induction fuel generalizing s w with
+  | zero => simp [Streams.prioBufferPendingLoop]
+  | succ n ih => unfold Streams.prioBufferPendingLoop; view_auto
+
+@[simp] theorem view_prioBufferPending (fuel : Nat) (s : Streams) (w : Writer) :
+    view (Streams.prioBufferPending fuel s w).1 = view s := by
+  unfold Streams.prioBufferPending; view_auto
+
 
 end H2V.Lemmas.ConnCtlP
